@@ -501,6 +501,43 @@ func queryFace(face *font.Face, ld *ot.Loader, r *runner) {
 			sink += len(d2.Family)
 		}
 	})
+	// every table read through ONE reused buffer (Loader.RawTableTo), in ascending and in descending
+	// order of size: the buffer is alternately too small and large enough for the next table
+	if ld != nil {
+		r.do("RawTableTo", func() {
+			tags := ld.Tables()
+			sizes := map[ot.Tag]int{}
+			for _, tg := range tags {
+				b, _ := ld.RawTable(tg)
+				sizes[tg] = len(b)
+			}
+			sort.SliceStable(tags, func(i, j int) bool { return sizes[tags[i]] < sizes[tags[j]] })
+			var buf []byte
+			for _, tg := range tags {
+				if b, err := ld.RawTableTo(tg, buf); err == nil {
+					buf = b
+					sink += len(b)
+				}
+			}
+			for i := len(tags) - 1; i >= 0; i-- {
+				if b, err := ld.RawTableTo(tags[i], buf[:0]); err == nil {
+					buf = b
+					sink += len(b)
+				}
+			}
+			// and with a small buffer between two large ones
+			buf = make([]byte, 0, 16)
+			for i := range tags {
+				j := i / 2
+				if i%2 == 1 {
+					j = len(tags) - 1 - i/2
+				}
+				if b, err := ld.RawTableTo(tags[j], buf); err == nil {
+					buf = b
+				}
+			}
+		})
+	}
 	r.do("footprint", func() {
 		fp := fontscan.VerifFootprintFromFont(ft, fontscan.Location{File: "mutant"}, ft.Describe())
 		sink += fp.Runes.Len()
